@@ -131,7 +131,7 @@ theorem handoff_fold (others : List Nat) (c : Cfg) :
       (c.A.reqs.getD t default).ih false).1)
     simp only [failLoop] at h1 h2 h3 h4 h5 h6
     refine ⟨?_, ?_, ?_, ?_, ?_, ?_⟩
-    · rw [h1, enqueue_LT]; simp [Cfg.LT]
+    · rw [h1, enqueue_LT]; simp [Cfg.LT, failSig]
     · rw [h2]; simp; omega
     · rw [h3]; simp
     · rw [h4]; simp
@@ -225,27 +225,6 @@ theorem step_inputReady (P : Prog) (c : Cfg) (n : Nat) (s : Sig) (rest : List In
   · simp [h1]
 
 /-! ### a new request: `getInput2`, `blockingInput` -/
-
-/-- the freshly created `InputHandler` object -/
-def freshIH (source : Src) (skip : Bool) (cb : Option Nat) : IHandler := { source := source, skip := skip, cb := cb }
-
-/-- A new `InputHandler` `h` was created and asked for input with prompt `text`: the handler, its
-request and its signal handler are recorded, and the request is either refused (stack and reader
-untouched, nothing printed) or accepted (pushed on the stack, prompt printed, a reader thread started
-iff none was running). -/
-structure Requested (c c' : Cfg) (h : IHandler) (text : Str) : Prop where
-  ihs : c'.A.ihs = c.A.ihs ++ [h]
-  reqs : c'.A.reqs = c.A.reqs ++ [{ ih := c.A.ihs.length, requester := h.source, text := text }]
-  handlers : c'.L.handlers = c.L.handlers ++ [ihReg c.A.ihs.length]
-  stdin : c'.A.stdin = c.A.stdin
-  log : c'.log = c.log
-  outcome :
-    (c.A.inputStack ≠ [] ∧ h.skip = false ∧ c'.A.inputStack = c.A.inputStack ∧
-      c'.A.processing = c.A.processing ∧ c'.A.readers = c.A.readers ∧ c'.A.out = c.A.out) ∨
-    ((c.A.inputStack = [] ∨ h.skip = true) ∧ c'.A.inputStack = c.A.inputStack ++ [c.A.reqs.length] ∧
-      c'.A.processing = true ∧ c'.A.out = c.A.out ++ [text] ∧
-      ((c.A.processing = true ∧ c'.A.readers = c.A.readers) ∨
-       (c.A.processing = false ∧ c'.A.readers = c.A.readers ++ [c.A.reqs.length])))
 
 theorem listSet_append_fresh (ihs : List IHandler) (source : Src) (skip : Bool) (cb : Option Nat) :
     listSet (ihs ++ [freshIH source skip cb]) ihs.length IHandler.cleared = ihs ++ [freshIH source skip cb] := by
